@@ -2,7 +2,7 @@
    Property theorems only: each is closed by `exact <lemma>`; Print Assumptions must report a closed term. *)
 From Coq Require Import List Bool Arith.
 Import ListNotations.
-Require Import PonyV.Model.C03Bexp PonyV.Proofs.C03Checker PonyV.Model.C03Decomp PonyV.Model.C03Family PonyV.Proofs.C03Roundtrip PonyV.Proofs.C03RoundtripCnf PonyV.Proofs.C03RoundtripIf PonyV.Proofs.C03Roundtrip3 PonyV.Proofs.C03Roundtrip3Run PonyV.Proofs.C03CompileSound
+Require Import PonyV.Model.C03Bexp PonyV.Proofs.C03Checker PonyV.Model.C03Decomp PonyV.Model.C03Family PonyV.Model.C03Family3 PonyV.Proofs.C03Roundtrip PonyV.Proofs.C03RoundtripCnf PonyV.Proofs.C03RoundtripIf PonyV.Proofs.C03Roundtrip3 PonyV.Proofs.C03Roundtrip3Run PonyV.Proofs.C03Roundtrip3Dual PonyV.Proofs.C03CompileSound
                PonyV.Model.C03Cache PonyV.Proofs.C03CacheProofs PonyV.Gen.C03CacheKey.
 
 (* The oracle the harness uses to judge every output of the real decompiler: if the truth-table checker accepts a pair
@@ -37,7 +37,7 @@ Print Assumptions C03_checker_truth_complete.
    It is FALSE: Findings/C03.v, C03_refuted_filter_wrong_And_Or
    (`a and ((b or c and d) and e or g)` comes back as `(a and (b or c and d) and e) or g`); the real decompiler behaves the
    same way (known finding filter:wrong:And+Or).  What is proved are the unbounded sub-families below, the largest being all
-   expressions of nesting depth 3 with `or` outermost (C03_andor_depth3).  analyze_jumps' "an or-jump strictly between" test
+   expressions of nesting depth 3 (C03_andor_depth3 with `or` outermost, C03_andor_depth3_dual with `and` outermost).  analyze_jumps' "an or-jump strictly between" test
    is characterised in general (Proofs/C03Roundtrip3.v, or_jumps_classified: or_jumps is exactly any set S of jumps such
    that no S-jump to a farther target lies strictly between an S-jump and its target and every other forward jump has one),
    and it is RIGHT on the refuted input; the wrong tree there comes from process_target's limit `targets[pos]` naming a
@@ -105,6 +105,27 @@ Proof.
   split; [|reflexivity]. split; [cbn; auto with arith|].
   repeat constructor; try discriminate; cbn; auto.
 Qed.
+
+(* C03_andor_depth3_dual: nesting depth 3 with `and` outermost.  Every `and` of (at least two) clauses, each clause an `or`
+   of disjuncts (or a single literal), each disjunct a literal or an `and`-group of literals, decompiles to exactly itself.
+   (All disjuncts literals: the CNF family above with >= 2 clauses.)  Every clause is compiled like a filter of its own whose
+   "body" is the end of the clause; the identity registered for the loop top may be stale but is never used as a limit. *)
+Theorem C03_andor_depth3_dual : forall cls, wf3 cls -> decompile PFilter (cnf3 cls) = Some (cnf3 cls).
+Proof. exact roundtrip_cnf3. Qed.
+Print Assumptions C03_andor_depth3_dual.
+
+Theorem C03_andor_depth3_dual_meaning : forall cls, wf3 cls ->
+  exists e', decompile PFilter (cnf3 cls) = Some e' /\ forall rho, eval rho e' = eval rho (cnf3 cls).
+Proof. exact roundtrip_cnf3_meaning. Qed.
+Print Assumptions C03_andor_depth3_dual_meaning.
+
+(* non-vacuity: `(a and not b or c) and d and (e or x == y and g is None and h or i and j)` is in the family *)
+Example C03_andor_depth3_dual_nonvacuous :
+  cnf3 [[[Lit false 0; Lit true 1]; [Lit false 2]]; [[Lit false 3]];
+        [[Lit false 4]; [LCmp false false 5 6; LIsN false 7; Lit false 8]; [Lit false 9; Lit false 10]]] =
+    And [Or [And [Atom 0; Not (Atom 1)]; Atom 2]; Atom 3;
+         Or [Atom 4; And [Cmp false (Atom 5) (Atom 6); IsNone false (Atom 7); Atom 8]; And [Atom 9; Atom 10]]].
+Proof. reflexivity. Qed.
 
 (* A family with a conditional expression, in ELEMENT position: (xa if t1 and ... and tn else xb for x in T), any n >= 1,
    comes back as exactly itself (partial + full process_target of JUMP_FORWARD, classification by jump sense after
